@@ -52,14 +52,16 @@ def table_fields(S, t, ids, eidx, oidx, q):
     for f, fid in zip(t["fields"], ids):
         k = f["kind"]
         d = dict(id=fid, offset=4 + 2 * fid, elem=0, index=-1, fixed=0, defi=0, required=int(bool(f.get("required"))), deprecated=int(bool(f.get("deprecated"))),
-                 key=int(bool(keyed) and f["name"] == keyed[0]))
+                 key=int(bool(keyed) and f["name"] == keyed[0]),
+                 # `optional` as the generated C has it: scalars and enums only with `= null`; everything stored by reference (and structs) unless required
+                 optional=0 if f.get("required") else 1 if f.get("optional") else 0 if k in ("scalar", "enum") else 1)
         if k == "scalar":
             d["base"] = BT[f["type"]]
             if "default" in f: d["defi"] = int(f["default"])
         elif k == "string": d["base"] = BT["string"]
         elif k == "enum":
             e = [e for e in S["enums"] if e["name"] == f["type"]][0]
-            d["base"] = BT[e["type"]]; d["index"] = eidx[q(f["type"])]; d["defi"] = dict(e["values"])[f["default"]]
+            d["base"] = BT[e["type"]]; d["index"] = eidx[q(f["type"])]; d["defi"] = dict(e["values"])[f["default"]] if "default" in f else 0
         elif k == "struct": d["base"] = BT["obj"]; d["index"] = oidx[q(f["type"])]
         elif k == "table": d["base"] = BT["obj"]; d["index"] = oidx[q(f["type"])]
         elif k == "vec_scalar": d["base"] = BT["vector"]; d["elem"] = BT[f["type"]]
@@ -116,7 +118,9 @@ def run(ctx):
     # always first: objects with 1..5 fields declared in descending name order, a table whose only field is a union / union vector
     # (hidden u_type before u), a two-member struct: every field count meets the sort-then-find path
     T = [{"name": "N%d" % n, "fields": [{"name": "z%d" % (9 - k), "kind": "scalar", "type": "int"} for k in range(n)]} for n in range(1, 6)]
-    T += [{"name": "OnlyU", "fields": [{"name": "u", "kind": "union", "type": "U0"}]}, {"name": "OnlyUV", "fields": [{"name": "u", "kind": "vec_union", "type": "U0"}]}]
+    T += [{"name": "OnlyU", "fields": [{"name": "u", "kind": "union", "type": "U0"}]}, {"name": "OnlyUV", "fields": [{"name": "u", "kind": "vec_union", "type": "U0"}]},
+          {"name": "Opt", "fields": [{"name": "oe", "kind": "enum", "type": "E0", "optional": True}, {"name": "os", "kind": "scalar", "type": "int", "optional": True},
+                                     {"name": "pe", "kind": "enum", "type": "E0", "default": "Zb"}, {"name": "ps", "kind": "scalar", "type": "int"}, {"name": "st", "kind": "string"}]}]
     order_schema = {"namespace": "Or.Der", "enums": [{"name": "E0", "type": "ubyte", "values": [("Zb", 0), ("Ya", 1)]}],
                     "structs": [{"name": "P2", "fields": [{"name": "y", "type": "int"}, {"name": "x", "type": "int"}], "force_align": None}],
                     "unions": [{"name": "U0", "members": [("T", "N2"), ("T", "N1")]}], "tables": T, "root": "N2"}
